@@ -150,6 +150,7 @@ impl ISocket for RepSocket {
       }
     }
 
+    verif_point!("rep_recv:state_checked");
     let rcvtimeo_opt = self.core_state_read().options.rcvtimeo;
     let (peer_info, mut payload_frames) = self.recv_complete_request(rcvtimeo_opt).await?;
     *self.state.lock() = RepState::ReceivedRequest(peer_info);
